@@ -8,6 +8,7 @@ import random
 from .. import rt
 
 PROP = 'C11'
+MIN_NONTRIVIAL = 0.1         # (vacuity guard: share of executions that must reach a loop / diamond)
 TRACE_SPEC = 'GuardTrace'
 RULE = ('stimulus = (event graph over probe / Repeat / Input / Counter / FSM blocks with '
         'on_output, on_every_output, on_enter and probe events, filters, EventCond) + external '
@@ -255,9 +256,11 @@ def execute(stim):
         return res
 
     async def script(circuit, ctx, loop, clock):
+        # the nesting of event() calls recorded during the start-up
+        lines.append({'ev': 'startup', 'log': [list(x) for x in log], 'cerr': circuit.error is not None})
         if circuit.error is not None:
             hdr['vals'] = stim['init']
-            return          # the start-up cascade itself failed: nothing to check here
+            return          # the start-up cascade itself failed: only the nesting is checked
         hdr['vals'] = vals()
         for ev in stim['seq']:
             del log[:]
@@ -302,11 +305,30 @@ def execute(stim):
             if circuit.error is not None:
                 break
 
+    from edzed import simulator as _sim
+    import inspect
+    orig_static = inspect.getattr_static(_sim.Circuit, 'init_sblock')      # (a staticmethod today)
+    is_static = isinstance(orig_static, staticmethod)
+    orig_init = _sim.Circuit.init_sblock
+
+    def init_wrapped(*args, **kw):
+        blk = args[0] if is_static else args[1]
+        name = blk.name
+        known = name.startswith('n') and name[1:].isdigit()
+        if known:
+            log.append(['ib', int(name[1:]), 0])
+        try:
+            return orig_init(*args, **kw)
+        finally:
+            if known:
+                log.append(['ie', int(name[1:]), 0])
     edzed.SBlock.event = wrapped
+    _sim.Circuit.init_sblock = staticmethod(init_wrapped) if is_static else init_wrapped
     try:
         rt.run_circuit(build, script)
     finally:
         edzed.SBlock.event = orig_event
+        _sim.Circuit.init_sblock = orig_static
     return {'hdr': hdr, 'ev': lines}
 
 
@@ -339,11 +361,13 @@ def _cyclic_or_diamond(g):
 def nontrivial(stim, trace):
     if stim.get('family') == 'fsmwin':
         return any(c['on'] for c in stim['cfg']['chain']) or any(stim['cfg']['xchain'])
-    return bool(trace['ev']) and _cyclic_or_diamond(stim['g'])
+    return any(e['ev'] == 'ext' for e in trace['ev']) and _cyclic_or_diamond(stim['g'])
 
 
 def signature(stim, trace, why):
     e = why.get('event') or {}
+    if e.get('ev') == 'startup':
+        return 'reject:startup:nesting'
     if stim.get('family') == 'fsmwin':
         return f"reject:fsmwin:ret={e.get('ret')}"
     return f"reject:exc={e.get('exc')}:bad={e.get('bad')}:locked={bool(e.get('locked'))}"
